@@ -88,7 +88,10 @@ Q_C02ok == {qq \in Q_C02 : (qq.order = <<>> => ~qq.desc) /\ (~qq.hastop => qq.to
 \* a small family on which every C02 specification mutant must fail (R5)
 Q_C02mut == {[BaseQ EXCEPT !.items = <<E(Fa(1))>>, !.hastop = TRUE, !.top = 1],
              [BaseQ EXCEPT !.items = <<E(Fa(1)), E(NRx)>>, !.order = <<Fa(1)>>, !.desc = TRUE],
-             [BaseQ EXCEPT !.items = <<E(Fa(1))>>, !.distinct = "uniq", !.order = <<Fa(2)>>]}
+             [BaseQ EXCEPT !.items = <<E(Fa(1))>>, !.distinct = "uniq", !.order = <<Fa(2)>>],
+             [BaseQ EXCEPT !.items = <<E(Fa(1))>>, !.distinct = "count", !.hastop = TRUE, !.top = 1],
+             [BaseQ EXCEPT !.items = <<E(Fa(2))>>, !.distinct = "count", !.hastop = TRUE, !.top = 2, !.where = <<"ne", Fa(1), Fa(2)>>],
+             [BaseQ EXCEPT !.items = <<E(Fa(1))>>, !.distinct = "uniq", !.hastop = TRUE, !.top = 1, !.order = <<Fa(2)>>, !.desc = TRUE]}
 
 \* bounded queries that need no buffering, for the unbounded-input (cyclic iterator) liveness config
 Q_C02live == {[BaseQ EXCEPT !.items = its, !.where = w, !.hastop = TRUE, !.top = t] :
@@ -167,6 +170,13 @@ Q_C13join == {[BaseQ EXCEPT !.items = <<E(Fa(1)), E(Fb(2))>>, !.join = j, !.jkey
              \cup {[BaseQ EXCEPT !.items = << <<"star">> >>, !.join = "inner", !.jkeys = << <<2, 1>> >>, !.order = <<Fb(2)>>],
                    [BaseQ EXCEPT !.kind = "update", !.assign = << <<2, Fb(2)>> >>, !.join = "left", !.jkeys = << <<1, 1>> >>]}
 R_2x2p == [1..2 -> {S(97), S(98), S(112)}]     \* rectangular, with the poison value
+
+\* ---------------------------------------------------------------- extension: user init code
+Q_EXTinit == {[BaseQ EXCEPT !.items = <<E(<<"udf", Fa(1)>>), E(NRx)>>, !.init = "def"],
+              [BaseQ EXCEPT !.items = <<E(Fa(1))>>, !.where = <<"eq", <<"udf", Fa(2)>>, <<"lit", <<97, 117>>>> >>, !.init = "def", !.order = << <<"udf", Fa(1)>> >>],
+              [BaseQ EXCEPT !.kind = "update", !.assign = << <<1, <<"udf", Fa(2)>> >> >>, !.init = "def"],
+              [BaseQ EXCEPT !.items = <<E(Fa(1))>>, !.init = "raise"],
+              [BaseQ EXCEPT !.items = << <<"agg", "COUNT", <<"int", 1>> >> >>, !.init = "raise"]}
 
 \* ---------------------------------------------------------------- C15: every break point x query shapes
 Q_C15 == {[BaseQ EXCEPT !.items = <<E(Fa(1)), E(NRx)>>],
@@ -252,7 +262,10 @@ Q_C03num == {[BaseQ EXCEPT !.items = <<it, E(Fa(1))>>, !.hasgroup = g # <<>>, !.
 R_numz == {<<k, v>> : k \in {S(97)}, v \in {D(48), Str(<<45, 50>>), D(52), Str(<<45, 55>>)}}       \* "0", "-2", "4", "-7"
 Q_C03med == {[BaseQ EXCEPT !.items = <<Agg(f, Fa(2)), E(Fa(1))>>, !.hasgroup = g # <<>>, !.group = g] :
                f \in {"MEDIAN", "VARIANCE", "AVG", "MIN", "SUM"}, g \in {<<>>, <<Fa(1)>>}}
-Q_C03bad == {[BaseQ EXCEPT !.items = <<Agg("COUNT", <<"int", 1>>)>>, !.order = <<Fa(1)>>],
+Q_C03bad == {[BaseQ EXCEPT !.items = << <<"aggplus", "MAX", Fa(2)>>, E(Fa(1))>>, !.hasgroup = TRUE, !.group = <<Fa(1)>>],
+             [BaseQ EXCEPT !.items = << <<"aggattr", "MIN", Fa(2)>> >>],
+             [BaseQ EXCEPT !.items = <<E(Fa(1)), <<"aggattr", "MAX", Fa(1)>> >>, !.where = <<"eq", Fa(1), L(98)>>],
+             [BaseQ EXCEPT !.items = <<Agg("COUNT", <<"int", 1>>)>>, !.order = <<Fa(1)>>],
              [BaseQ EXCEPT !.items = <<Agg("MAX", Fa(2))>>, !.distinct = "uniq"],
              [BaseQ EXCEPT !.items = <<Agg("SUM", Fa(2)), E(Fa(1))>>, !.hasgroup = TRUE, !.group = <<Fa(1)>>, !.order = <<Fa(1)>>]}
 \* lower-case min / max / sum with several arguments or an iterable keep their Python meaning (no aggregation)
